@@ -518,6 +518,86 @@ func run(r *Rng, tier string, n int) {
 		m.Compress = false
 		checkLen(m, true, false, "beyond-16384")
 	}
+	// (3a) messages WITHOUT a question that hold exactly one record (a zone-transfer envelope with the lone SOA, a
+	// NOTIFY answer) and messages with one record per section, Compress on: names inside the one record share
+	// suffixes with its owner and with each other. And Go strings longer than 255 octets in every character-string
+	// field (if Pack accepts them at all, Len must still cover what it writes); and header Rdlength values that
+	// are stale (the record came off the wire and was edited): Len is about the value, not about bookkeeping
+	{
+		h := func(t uint16) dns.RR_Header { return dns.RR_Header{Name: "example.org.", Rrtype: t, Class: 1, Ttl: 60} }
+		lone := []dns.RR{
+			&dns.SOA{Hdr: h(dns.TypeSOA), Ns: "ns1.example.org.", Mbox: "hostmaster.example.org.", Serial: 1},
+			&dns.MX{Hdr: h(dns.TypeMX), Preference: 10, Mx: "mail.example.org."},
+			&dns.MINFO{Hdr: h(dns.TypeMINFO), Rmail: "r.example.org.", Email: "e.example.org."},
+			&dns.NS{Hdr: h(dns.TypeNS), Ns: "ns.example.org."},
+			&dns.CNAME{Hdr: h(dns.TypeCNAME), Target: "example.org."},
+			&dns.SRV{Hdr: h(dns.TypeSRV), Target: "sip.example.org."},
+			&dns.RP{Hdr: h(dns.TypeRP), Mbox: "m.example.org.", Txt: "t.example.org."},
+			&dns.TXT{Hdr: h(dns.TypeTXT), Txt: []string{"x"}},
+		}
+		for _, rr := range lone {
+			for sec := 0; sec < 3; sec++ {
+				for _, compress := range []bool{true, false} {
+					m := new(dns.Msg)
+					m.Compress = compress
+					m.Response = true
+					switch sec {
+					case 0:
+						m.Answer = []dns.RR{dns.Copy(rr)}
+					case 1:
+						m.Ns = []dns.RR{dns.Copy(rr)}
+					case 2:
+						m.Extra = []dns.RR{dns.Copy(rr)}
+					}
+					checkLen(m, true, compress && sec == 0, "lone-record")
+					m2 := m.Copy()
+					m2.Answer, m2.Ns, m2.Extra = []dns.RR{dns.Copy(rr)}, []dns.RR{dns.Copy(rr)}, []dns.RR{dns.Copy(rr)}
+					checkLen(m2, true, false, "one-record-per-section")
+					st["lone_record_messages"]++
+				}
+			}
+		}
+		for _, n := range []int{255, 256, 257, 300, 510, 511, 600, 1000} {
+			long := strings.Repeat("s", n)
+			for _, rr := range []dns.RR{
+				&dns.TXT{Hdr: h(dns.TypeTXT), Txt: []string{long}},
+				&dns.TXT{Hdr: h(dns.TypeTXT), Txt: []string{"a", long, "b"}},
+				&dns.SPF{Hdr: h(dns.TypeSPF), Txt: []string{long}},
+				&dns.HINFO{Hdr: h(dns.TypeHINFO), Cpu: long, Os: "os"},
+				&dns.NAPTR{Hdr: h(dns.TypeNAPTR), Flags: "s", Service: long, Regexp: "", Replacement: "."},
+				&dns.URI{Hdr: h(dns.TypeURI), Target: long},
+				&dns.CAA{Hdr: h(dns.TypeCAA), Tag: "issue", Value: long},
+				&dns.X25{Hdr: h(dns.TypeX25), PSDNAddress: long},
+			} {
+				for _, compress := range []bool{true, false} {
+					m := new(dns.Msg)
+					m.Compress = compress
+					m.SetQuestion("example.org.", rr.Header().Rrtype)
+					m.Answer = []dns.RR{dns.Copy(rr), dns.Copy(rr)}
+					checkLen(m, false, false, "long-go-strings")
+					st["long_go_string_messages"]++
+				}
+			}
+		}
+		for i := 0; i < 60; i++ {
+			var np []string
+			m := new(dns.Msg)
+			m.Compress = i%2 == 0
+			m.SetQuestion(plainName(r, &np), dns.TypeA)
+			for j := 0; j < 6; j++ {
+				m.Answer = append(m.Answer, plainRR(r, &np, commonTypes[r.Intn(len(commonTypes))]))
+			}
+			o := &dns.OPT{Hdr: dns.RR_Header{Name: ".", Rrtype: dns.TypeOPT, Class: 1232}, Option: []dns.EDNS0{&dns.EDNS0_NSID{Code: dns.EDNS0NSID, Nsid: "abcdef"}, &dns.EDNS0_PADDING{Padding: make([]byte, r.Intn(60))}}}
+			m.Extra = []dns.RR{o}
+			for _, sec := range [][]dns.RR{m.Answer, m.Extra} {
+				for _, rr := range sec {
+					rr.Header().Rdlength = []uint16{0, 1, 3, 65535, uint16(r.Next())}[r.Intn(5)]
+				}
+			}
+			checkLen(m, true, false, "stale-rdlength")
+			st["stale_rdlength_messages"]++
+		}
+	}
 	// (3b) a name STRADDLING the pointer limit: padding puts the first octet of a name (plain, or with escapes
 	// in every label, which shifts text offsets against wire offsets) at every offset 16384-30 .. 16384+3; the
 	// records behind it use each of its suffixes again. Labels that start below 16384 are pointer targets,
